@@ -166,6 +166,7 @@ type e8interp struct {
 	opaque  map[*types.Func]bool // repository functions that must not be entered
 	frozen  map[types.Object]bool // variables whose assignments are ignored (they stay inputs)
 	opaquePkg map[*types.Package]bool // packages whose functions must not be entered
+	lens      map[string]int64    // len(x) of these inputs is a concrete number (index analyses over small sizes)
 	rangeMax  int                 // range loops over opaque slices run 0..rangeMax times over distinct opaque elements
 	rangeOnce bool                // range loops run zero times or once (for rows that do not depend on them)
 	havoc   bool                  // variables written by a function literal handed to an opaque call become fresh atoms after the call
@@ -605,6 +606,14 @@ func (in *e8interp) eval(fr *e8frame, e ast.Expr) *val {
 				return &val{k: kInt, n: l.n - r.n}
 			case token.MUL:
 				return &val{k: kInt, n: l.n * r.n}
+			case token.REM:
+				if r.n != 0 {
+					return &val{k: kInt, n: l.n % r.n}
+				}
+			case token.QUO:
+				if r.n != 0 {
+					return &val{k: kInt, n: l.n / r.n}
+				}
 			}
 		}
 		// arithmetic over atoms: a derived atom named by its canonical text
@@ -709,6 +718,9 @@ func (in *e8interp) call(fr *e8frame, x *ast.CallExpr) *val {
 		switch b.Name() {
 		case "len":
 			if av := in.evalQuiet(fr, x.Args[0]); av != nil && av.k == kStruct && av.name != "" {
+				if n, ok := in.lens[av.name]; ok {
+					return &val{k: kInt, n: n, typ: info.TypeOf(x)}
+				}
 				return &val{k: kScalar, name: "len(" + av.name + ")"}
 			}
 			return &val{k: kScalar, name: "len(" + types.ExprString(x.Args[0]) + ")"}
@@ -798,7 +810,11 @@ func (in *e8interp) call(fr *e8frame, x *ast.CallExpr) *val {
 		if len(res.vals) == 1 {
 			return res.vals[0]
 		}
-		return &val{k: kStruct, f: map[string]*val{"0": res.vals[0], "1": res.vals[1]}}
+		tup := &val{k: kStruct, f: map[string]*val{}}
+		for i, rv := range res.vals {
+			tup.f[fmt.Sprint(i)] = rv
+		}
+		return tup
 	}
 	// a call through a variable that holds a function literal: its body runs in the frame that created it
 	if id, ok := ast.Unparen(x.Fun).(*ast.Ident); ok && fn == nil && in.depth < 6 {
